@@ -1,6 +1,7 @@
 package props
 
 import (
+	"encoding/binary"
 	"bytes"
 	"fmt"
 	"net"
@@ -479,6 +480,89 @@ func runC11Multi(c *ev.Case, ctx *lib.Ctx, order []int) {
 	c.Event("rejected", 1)
 }
 
+// runC11Simul: the first K handshakes of a fresh state machine arrive at the same
+// moment on K connections; every CEA must be complete (shared applications
+// advertised, local identity), whichever handshake the state machine sees first.
+func runC11Simul(c *ev.Case, ctx *lib.Ctx, K int) {
+	sig := func(op string) ev.Sig { return ev.Sig{"op": op, "suite": "simultaneous-first-handshakes"} }
+	settings := &sm.Settings{OriginHost: "srv.local", OriginRealm: "realm.local", VendorID: 13, ProductName: "verif"}
+	machine := sm.New(settings)
+	ln := memnet.NewListener()
+	srv := &diam.Server{Handler: machine, Dict: ctx.Parser}
+	go srv.Serve(ln)
+	type peerT struct {
+		avp  *refcodec.Node
+		code uint32
+		id   uint32
+	}
+	all := []peerT{
+		{peer.U32(peer.AuthApp, 4), peer.AuthApp, 4},
+		{peer.U32(peer.AcctApp, 3), peer.AcctApp, 3},
+		{peer.U32(peer.AuthApp, 16777251), peer.AuthApp, 16777251},
+		{peer.U32(peer.AuthApp, 1), peer.AuthApp, 1},
+	}
+	conns := make([]*memnet.Conn, K)
+	defer func() {
+		for _, mc := range conns {
+			mc.FeedEOF()
+		}
+		ln.Close()
+		synctest.Wait()
+	}()
+	for i := range conns {
+		mc := memnet.NewConn()
+		mc.Local = memnet.Addr{Net: "tcp", Str: "198.51.100.7:3868"}
+		mc.Remote = memnet.Addr{Net: "tcp", Str: fmt.Sprintf("10.9.9.%d:1000", i+1)}
+		conns[i] = mc
+		ln.Offer(mc)
+	}
+	synctest.Wait()
+	for i, mc := range conns {
+		p := all[(i+c.I)%len(all)]
+		avps := []*refcodec.Node{peer.Str(peer.OriginHost, refcodec.DiameterIdentity, fmt.Sprintf("client%d.example", i)), peer.Str(peer.OriginRealm, refcodec.DiameterIdentity, "example"),
+			peer.Addr4(peer.HostIP, 10, 9, 9, byte(i+1)), peer.U32(peer.VendorID, 99), peer.Str(peer.ProductName, refcodec.UTF8String, "peer"), p.avp}
+		mc.Feed(peer.Msg(0x80, peer.CodeCE, 0, uint32(100+i), uint32(200+i), avps...))
+	}
+	synctest.Wait()
+	for i, mc := range conns {
+		p := all[(i+c.I)%len(all)]
+		msgs, _ := peer.SplitMessages(mc.Written())
+		if len(msgs) != 1 {
+			c.Fail(sig("cea-count"), nil, nil, "connection %d of %d: %d messages in reply to its CER", i, K, len(msgs))
+			return
+		}
+		if rc := peer.FindU32(msgs[0], peer.ResultCode); len(rc) != 1 || rc[0] != 2001 {
+			c.Fail(sig("outcome"), msgs[0], nil, "connection %d of %d (application %d): Result-Code %v", i, K, p.id, rc)
+			return
+		}
+		found := false
+		for _, id := range peer.FindU32(msgs[0], p.code) {
+			found = found || id == p.id
+		}
+		// (the state machine may also advertise it inside a Vendor-Specific-Application-Id)
+		for _, g := range peer.Find(msgs[0], peer.VSApp) {
+			if recs, _, err := refcodec.Frame(g); err == nil {
+				for _, r := range recs {
+					if r.Code == p.code && len(r.Payload) == 4 && binary.BigEndian.Uint32(r.Payload) == p.id {
+						found = true
+					}
+				}
+			}
+		}
+		if !found {
+			c.Fail(sig("cea-apps"), msgs[0], nil, "%d first handshakes at the same moment: the success CEA on connection %d does not advertise the shared application %d", K, i, p.id)
+			return
+		}
+		if oh := peer.Find(msgs[0], peer.OriginHost); len(oh) != 1 || string(oh[0]) != "srv.local" {
+			c.Fail(sig("cea-identity"), msgs[0], nil, "connection %d: CEA Origin-Host %q", i, oh)
+			return
+		}
+		c.Event("cers", 1)
+		c.Event("accepted", 1)
+	}
+	c.Event("simultaneous_first_handshakes", 1)
+}
+
 func TestC11(t *testing.T) {
 	rec := ev.Open(t, "C11")
 	defer rec.Close()
@@ -529,6 +613,14 @@ func TestC11(t *testing.T) {
 		}
 	})
 	// random multisets up to 12
+	rec.Suite("simultaneous-first-handshakes", rec.N(400, 40000), func(c *ev.Case) {
+		K := 2 + c.I%3
+		c.Class("simultaneous/K=%d", K)
+		leak := runBubbleWD(t, rec, c, 60*time.Second, func() { runC11Simul(c, ctx, K) })
+		if leak != "" && !c.Failed() {
+			c.Fail(ev.Sig{"op": "bubble-leak"}, nil, nil, "goroutines left blocked after the scenario: %s", leak)
+		}
+	})
 	rec.Suite("random", rec.N(2000, 1000000), func(c *ev.Case) {
 		r := c.R
 		cc := c11Case{host: r.IntN(8) != 0, realm: r.IntN(8) != 0, inband: r.IntN(4) - 1, nAddrs: r.IntN(3), ipv6: r.IntN(2) == 0, zeroIDs: r.IntN(4) == 0}
@@ -602,4 +694,70 @@ func TestC11Dict(t *testing.T) {
 		}
 	})
 	rec.Exhaustive("two-type-application")
+
+	// a dictionary whose load failed part-way (data type with a typo after the application
+	// was declared): whatever the state machine makes of that application, its decision
+	// must be coherent - if a CER naming only that application is accepted because the
+	// application is shared, the success CEA advertises it
+	broken := `<?xml version="1.0" encoding="UTF-8"?><diameter><application id="9004" type="auth" name="Broken-Load"><avp name="Broken-First" code="29001" must="M" may="P" must-not="V" may-encrypt="-"><data type="UTF8String"/></avp><avp name="Broken-Second" code="29002" must="M" may="P" must-not="V" may-encrypt="-"><data type="Unsigned23"/></avp></application></diameter>`
+	if err := dict.Default.Load(bytes.NewReader([]byte(broken))); err == nil {
+		t.Fatal("the broken dictionary was expected to be refused")
+	}
+	rec.Suite("application-of-failed-load", 4, func(c *ev.Case) {
+		withOther := c.I%2 == 1
+		c.Class("failed-load/with-supported-app=%v", withOther)
+		leak := runBubbleWD(t, rec, c, 60*time.Second, func() {
+			machine := sm.New(&sm.Settings{OriginHost: "srv.local", OriginRealm: "realm.local", VendorID: 13, ProductName: "verif"})
+			ln := memnet.NewListener()
+			srv := &diam.Server{Handler: machine, Dict: dict.Default}
+			go srv.Serve(ln)
+			mc := memnet.NewConn()
+			mc.Local = memnet.Addr{Net: "tcp", Str: "198.51.100.7:3868"}
+			ln.Offer(mc)
+			defer func() {
+				mc.FeedEOF()
+				ln.Close()
+				synctest.Wait()
+			}()
+			avps := []*refcodec.Node{peer.Str(peer.OriginHost, refcodec.DiameterIdentity, "client.example"), peer.Str(peer.OriginRealm, refcodec.DiameterIdentity, "example"),
+				peer.Addr4(peer.HostIP, 10, 9, 9, 1), peer.U32(peer.VendorID, 99), peer.Str(peer.ProductName, refcodec.UTF8String, "peer"), peer.U32(peer.AuthApp, 9004)}
+			if withOther {
+				avps = append(avps, peer.U32(peer.AuthApp, 4))
+			}
+			mc.Feed(peer.Msg(0x80, peer.CodeCE, 0, 1, 2, avps...))
+			synctest.Wait()
+			msgs, _ := peer.SplitMessages(mc.Written())
+			if len(msgs) != 1 {
+				c.Fail(ev.Sig{"op": "cea-count", "suite": "failed-load"}, nil, nil, "%d messages in reply to the CER", len(msgs))
+				return
+			}
+			rc := peer.FindU32(msgs[0], peer.ResultCode)
+			_, appErr := dict.Default.App(9004, "auth")
+			switch {
+			case len(rc) == 1 && rc[0] == 5010 && !withOther:
+				c.Event("rejected", 1)
+			case len(rc) == 1 && rc[0] == 2001:
+				adv := map[uint32]bool{}
+				for _, id := range peer.FindU32(msgs[0], peer.AuthApp) {
+					adv[id] = true
+				}
+				if withOther && !adv[4] {
+					c.Fail(ev.Sig{"op": "cea-apps", "suite": "failed-load"}, msgs[0], nil, "the success CEA does not advertise the shared application 4")
+					return
+				}
+				if appErr == nil && !adv[9004] {
+					c.Fail(ev.Sig{"op": "cea-apps", "suite": "failed-load"}, msgs[0], nil, "the dictionary reports application 9004 (auth) as supported after the failed load, the CER named it (alone: %v) and was accepted, but the success CEA advertises only %v", !withOther, keysU32(adv))
+					return
+				}
+				c.Event("accepted", 1)
+			default:
+				c.Fail(ev.Sig{"op": "outcome", "suite": "failed-load"}, msgs[0], nil, "Result-Code %v for a CER naming the application of a dictionary whose load failed (with application 4: %v)", rc, withOther)
+				return
+			}
+			c.Event("cers", 1)
+		})
+		if leak != "" && !c.Failed() {
+			c.Fail(ev.Sig{"op": "bubble-leak"}, nil, nil, "goroutines left blocked after the scenario: %s", leak)
+		}
+	})
 }
